@@ -389,7 +389,10 @@ def run(rep, pdb, tier):
                         lvar = incs[0].target
                         resets = [q for q in es if q.kind == "assign" and q.target == lvar and q.value == num(1) and _pos(q.node) < _pos(bs[0].loops[0])]
                         rk_ = for_range(c2, sub[0].loops[1]) if okb else None
-                        okwid = bool(resets) and rk_ is not None and rk_[2] == lvar
+                        lb_ = c2.binds.get(lvar[1]) if lvar[0] == "var" else None
+                        fresh1 = lb_ is not None and lb_.kind == "let" and lb_.init is not None and c2.term(lb_.init) == num(1) and \
+                            not [q for q in es if q.kind == "assign" and q.target == lvar]           # `let mut filled = 1;` instead of re-using l
+                        okwid = (bool(resets) or fresh1) and rk_ is not None and rk_[2] == lvar
             ok = oksw and okfw and okb and xdef == P(1) and okwid
             det = "exchange replay=%s multiplier replay (same offset j-k-1)=%s back substitution on au=%s window grows 1..m1+m2+1=%s x starts as b.clone()=%s" % (oksw, okfw, okb, okwid, xdef == P(1))
         rep.add("solve-replay", rule, ok, fn["body"], det, where=loc(fn["body"]))
